@@ -80,6 +80,14 @@ def rule_tag(ctx, py):
                 probs = list(cx.problems)
                 spec = SPEC.get(op)
                 rets = getattr(cx, "all_rets", [res] if res is not None else [])
+                # + - % and the comparisons are defined between equal dimensions only: with a quantity operand every result is
+                # produced on a path where the operand's dimension was compared with self's (and found equal)
+                if k in ("UnitValue", "UnitArray") and (op in CMP or SPEC.get(op) == "same"):
+                    for rv, fs in zip(rets, getattr(cx, "all_ret_facts", [])):
+                        if rv is not None and rv.kind in ("BOOL", "Q") and not ({("D_v", "D_self"), ("D_self", "D_v")} & set(fs)):
+                            probs.append((m.lineno, "a result is returned for a %s operand on a path that has not found its "
+                                          "dimension equal to self's: operands of different dimensions do not raise" % k))
+                            break
                 for rv in rets:
                     if rv is not None and rv.kind == "Q" and spec:
                         Dv = D({"D_v": 1}) if k in ("UnitValue", "UnitArray") else D()
